@@ -15,6 +15,8 @@ def concrete_hash(hasher: str, k: int, model: Dict[str, int]) -> int:
         return k
     if hasher == 'samebin':
         return 1 + (k << 20)
+    if hasher == 'split':
+        return 1 + (k << 6)
     if hasher == 'highbits':
         return k << 56
     return model.get('h(%d)' % k, 0)
@@ -80,6 +82,9 @@ def confirm(chk: C.Check, prop: str, sc: Scenario, f: Finding) -> None:
 def run_property(prop: str, tier: str, level: str, bounds: Dict, assumptions: List[str], extra=None) -> int:
     chk = C.Check(prop, tier, level)
     chk.bounds = bounds
+    if level == 'other':
+        chk.coverage['explanation'] = ('Bounded symbolic execution of the real code on one thread: %s. This decides the sequential core and the stated necessary conditions of the '
+                                       'property for ALL key/hash values within the bounds; the interleaving quantifier of the property is outside what this check decides.' % '; '.join('%s: %s' % kv for kv in bounds.items()))
     chk.assumptions = assumptions + [
         'sequential execution (one thread); atomics are plain cells, a bin lock is a held/free bit',
         'seize is modelled as a ledger: retired objects are reclaimed when the last guard of the collector is dropped (or at once for an unprotected guard)',
